@@ -60,7 +60,8 @@ fn letter_range() -> impl Parser<StringView, Output = LetterRange, Error = Parse
         .and_tuple(minus_sign().and_keep_right(letter()).to_option())
         .and_then(|(l, opt_r)| match opt_r {
             Some(r) => {
-                if l < r {
+                // letters are case insensitive: `a-Z` is the same range as `A-Z`
+                if l.to_ascii_uppercase() < r.to_ascii_uppercase() {
                     Ok(LetterRange::Range(l, r))
                 } else {
                     Err(ParserError::syntax_error("Invalid letter range"))
